@@ -37,11 +37,7 @@ Theorem C19_filter : forall (matches : str -> str -> bool) g a i ds e d f key,
   (filter_of matches (fo_stack f) key = true <->
    (exists p, (In p (g_excl g) \/ In p (a_exclude_regex a)) /\ matches p key = true) /\
    ~ (exists p, (In p (g_incl g) \/ In p (a_include_regex a)) /\ matches p key = true)).
-Proof.
-  intros matches g a i ds e d f key H Hd Hf He Hi.
-  destruct (dcmstack_args g a i ds e d f H Hd Hf) as [_ [_ [Hfil _]]]. rewrite Hfil.
-  exact (cli_filter_sem matches _ _ _ _ key He Hi).
-Qed.
+Proof. exact dcmstack_filter_sem. Qed.
 
 (** --default-regexes prints the module lists as they are now *)
 Theorem C19_default_regexes : forall g a i,
@@ -109,11 +105,7 @@ Theorem C19_inject : forall V (of_stored : stored -> V) e c key values ty force,
    exists v, convert_values values ty = Ok v) /\
   (~ (valid_class e c = true /\ length values = x_mult e c /\ (has_key e key = false \/ force = true)) ->
    inject of_stored e c key values ty force = Ok (1%Z, None)).
-Proof.
-  intros V of_stored e c key values ty force. split.
-  - exact (inject_changes_iff V of_stored e c key values ty force).
-  - exact (inject_refuses V of_stored e c key values ty force).
-Qed.
+Proof. exact inject_iff_and_refusal. Qed.
 
 (** ... and then exactly the given values are stored under the key in the requested classification,
     every other key keeps its value in every classification, and of the key itself only the old
